@@ -80,6 +80,8 @@ def run(db, rep, tier):
         if h is not None:
             read_bounds(db, rep, h)
     loop_shape(db, rep, f)
+    pkthdr(db, rep)
+    carry_timestamp(db, rep)
     rep.explanation = ("Decides the 'never lets an exception escape from the per-packet loop' clause for the pcap callbacks and "
                        "the structural part of 'skips malformed frames, ends cleanly': escape sets of all %d installed handlers, "
                        "the processed-flag protocol, the handlers' own reads of the frame (R3) and the shape of next_packet's loop. Round-trip of bytes/timestamps and BPF "
@@ -255,3 +257,160 @@ def loop_shape(db, rep, f):
     else:
         rep.violation("R4-loop-shape", "next_packet:negative-result", facts.loc(f, loop),
                       "a negative result of the capture call does not end the iteration with a null packet")
+
+
+PKTHDR_FIELDS = {"pcap_dump": ("ts", "caplen", "len"), "pcap_offline_filter": ("caplen", "len")}
+
+
+def pkthdr(db, rep):
+    """R5: a pcap_pkthdr built by libtins and handed to libpcap has every field
+    libpcap reads assigned (from something other than the constant 0) on every
+    path to the call.  `len` is what the BPF `len` / `greater` / `less`
+    primitives test, `caplen` bounds the loads, `ts`+both go to the file."""
+    rep.rule("R5-pkthdr", "every pcap_pkthdr libtins hands to pcap_dump / pcap_offline_filter has ts (dump only), caplen and len assigned "
+                          "from the frame on every path to the call", 5)
+    n = 0
+    for f in sorted(db.functions.values(), key=lambda x: x["id"]):
+        if not f.get("body") or not f["file"].startswith("src/"):
+            continue
+        hdrs = {}
+        for x in facts.fn_nodes(f):
+            if x["k"] == "VarDecl":
+                t = facts.tyi(f, x.get("t")) or {}
+                if t.get("k") == "rec" and t.get("name") == "pcap_pkthdr":
+                    hdrs[x["var"]] = x
+        if not hdrs:
+            continue
+        g = cfg.FnCFG(f)
+        for call in facts.fn_nodes(f):
+            if call["k"] != "CallExpr" or call.get("cname") not in PKTHDR_FIELDS:
+                continue
+            used = None
+            for a in call["c"][1:]:
+                a0 = facts.strip_all(a)
+                if a0["k"] == "UnaryOperator" and a0.get("op") == "&":
+                    v = facts.strip_all(a0["c"][0])
+                    if v["k"] == "DeclRefExpr" and v.get("var") in hdrs:
+                        used = v["var"]
+            if used is None:
+                continue
+            for field in PKTHDR_FIELDS[call["cname"]]:
+                n += 1
+                key = "%s:%s:%s" % (f["qual"].replace("Tins::", ""), call["cname"], field)
+                sets = []
+                for x in facts.fn_nodes(f):
+                    if (x["k"] == "BinaryOperator" and x.get("op") == "=") or \
+                            (x["k"] == "CXXOperatorCallExpr" and x.get("cname") == "operator="):
+                        ops = x["c"][-2:]
+                        l = strip(ops[0])
+                        if l["k"] == "MemberExpr" and l.get("member") == field and \
+                                facts.strip_all(l["c"][0]).get("var") == used and facts.cval(ops[1]) != 0:
+                            sets.append(x)
+                pos = [g.pos(x) for x in sets]
+                pos = [q for q in pos if q]
+                if not pos or g.reached_from_entry_avoiding(g.pos(call), pos) is not None:
+                    rep.violation("R5-pkthdr", key, facts.loc(f, call),
+                                  "%s() can be reached with header.%s never assigned from the frame (it stays 0 / indeterminate): %s"
+                                  % (call["cname"], field,
+                                     {"len": "BPF `len`, `greater` and `less` tests and the on-file original length are wrong",
+                                      "caplen": "libpcap sees no captured bytes",
+                                      "ts": "the frame's timestamp is not written"}[field]))
+                else:
+                    rep.ok("R5-pkthdr", key, facts.loc(f, call), "header.%s = %s on every path to the call"
+                           % (field, facts.expr_str(sets[0]["c"][-1])))
+    if n == 0:
+        rep.analysis_broken("no pcap_pkthdr built by libtins was found")
+
+
+PACKET_SOURCES = ("Tins::Packet", "Tins::RefPacket", "Tins::PtrPacket", "Tins::Timestamp")
+
+
+def carry_timestamp(db, rep):
+    """R6: every constructor / assignment operator of Packet that receives a
+    timestamp source (a Timestamp, or another packet object) stores a value
+    computed from that parameter in ts_ on every path (assignment operators:
+    on every path on which they store the layer pointer)."""
+    rep.rule("R6-carry-timestamp", "every Packet constructor / assignment operator that receives a timestamp or another packet object "
+                                   "stores that timestamp in ts_", 9)
+    r = db.records.get("Tins::Packet")
+    if r is None or not any(x["name"] == "ts_" for x in r["fields"]):
+        rep.analysis_broken("Tins::Packet or its ts_ member vanished")
+        return
+    for m in r["methods"]:
+        f = db.fn(m["id"])
+        if f is None or not f.get("body"):
+            continue
+        is_ctor = f.get("kind") == "ctor"
+        if not is_ctor and f.get("special") not in ("copy_assign", "move_assign"):
+            continue
+        srcs = []
+        for prm in f["params"]:
+            t = facts.tyi(f, prm.get("t")) or {}
+            while t.get("k") in ("ref", "ptr") and t.get("to"):
+                t = t["to"]
+            if t.get("k") == "rec" and (t.get("name") in PACKET_SOURCES or (t.get("name") or "").startswith("Tins::PacketWrapper<")):
+                srcs.append(prm)
+        if not srcs:
+            continue
+        def tname(prm):
+            t = facts.tyi(f, prm.get("t")) or {}
+            suf = ""
+            while t.get("k") in ("ref", "ptr") and t.get("to"):
+                suf = {"ref": "&", "ptr": "*"}[t["k"]] + suf
+                if t.get("rvalue"):
+                    suf = "&" + suf
+                t = t["to"]
+            return (t.get("name") or t.get("k") or "?").replace("Tins::", "") + suf
+        key = "Packet::%s(%s)" % ("Packet" if is_ctor else "operator=", ", ".join(tname(prm) for prm in f["params"]))
+        if f.get("special"):
+            key += ":" + f["special"]
+        vars_ = set(prm["var"] for prm in srcs)
+
+        def from_src(e):
+            return any(x["k"] == "DeclRefExpr" and x.get("var") in vars_ for x in facts.walk(e))
+        good = None
+        for i in f.get("inits", []):
+            if i.get("member") == "ts_" and i.get("written") and from_src(i["e"]):
+                good = ("init", i["e"])
+        stores = []
+        for x in facts.fn_nodes(f):
+            if x["k"] in ("BinaryOperator", "CXXOperatorCallExpr") and (x.get("op") == "=" or x.get("cname") == "operator="):
+                ops = x["c"][-2:]
+                l = facts.strip_all(ops[0])
+                if l["k"] == "MemberExpr" and l.get("member") == "ts_" and facts.strip_all(l["c"][0])["k"] == "CXXThisExpr" and from_src(ops[1]):
+                    stores.append(x)
+            if x["k"] == "CallExpr" and x.get("cname") == "swap" and len(x["c"]) == 3:
+                a, b = facts.strip_all(x["c"][1]), facts.strip_all(x["c"][2])
+                for u, w in ((a, b), (b, a)):
+                    if u["k"] == "MemberExpr" and u.get("member") == "ts_" and facts.strip_all(u["c"][0])["k"] == "CXXThisExpr" and from_src(w):
+                        stores.append(x)
+        site = facts.loc(f)
+        if good:
+            rep.ok("R6-carry-timestamp", key, site, "ts_ initialised from `%s`" % facts.expr_str(good[1]))
+            continue
+        if stores:
+            g = cfg.FnCFG(f)
+            # anchor: the store of the layer pointer; ts_ must be stored on every path that stores pdu_
+            pd = []
+            for x in facts.fn_nodes(f):
+                if x["k"] == "BinaryOperator" and x.get("op") == "=":
+                    l = facts.strip_all(x["c"][0])
+                    if l["k"] == "MemberExpr" and l.get("member") == "pdu_" and facts.strip_all(l["c"][0])["k"] == "CXXThisExpr":
+                        pd.append(x)
+            spos = [q for q in (g.pos(x) for x in stores) if q]
+            bad = None
+            if is_ctor or not pd:
+                if g.reaches_exit_avoiding((g.entry, -1), spos, normal_only=True) is not None and is_ctor:
+                    bad = "a path through the constructor leaves ts_ default-constructed"
+            for x in pd:
+                if g.reaches_exit_avoiding(g.pos(x), spos, normal_only=True) is not None and \
+                        g.reached_from_entry_avoiding(g.pos(x), spos) is not None:
+                    bad = "a path stores the layer pointer but not the timestamp"
+            if bad:
+                rep.violation("R6-carry-timestamp", key, site, bad)
+            else:
+                rep.ok("R6-carry-timestamp", key, site, "ts_ = `%s`" % facts.expr_str(stores[0]["c"][-1]))
+            continue
+        rep.violation("R6-carry-timestamp", key, site,
+                      "the new Packet does not take the timestamp of `%s`: ts_ is never stored from it (a capture moved or copied "
+                      "through this member reports timestamp 0 / another time)" % srcs[0]["name"])
